@@ -19,6 +19,21 @@
  *   size               low nibble 15: large length cap; value 0x10: count 0
  *                      (only where the code handles count == 0 explicitly)
  *
+ * adaptive "large" sub-mode (family adaptive, class 6, size & 0xF0 == 0xF0 on
+ * the quick tier / size & 0xE0 == 0xE0 on the thorough tier): no generic array
+ * is read; the case continues with
+ *               count:1[+2] layout:1[+1] distinct:1[+2] palette:1 mul:1 values
+ * and builds an array of 10001..141071 elements in which every k-th element
+ * (k in 1..20, any phase; by default k = the sampler's stride, phase 0) comes
+ * from a palette of 1..4 values and the others cycle through a pool of D
+ * distinct values of one tagged width class (1..9 bytes), D chosen per
+ * dictionary index width (<= 256, 257..65536, > 65536, or as many as there are
+ * positions); optionally the roles are swapped (pool on every k-th element,
+ * so that the sample sees more distinct values than the array has in
+ * proportion); unsorted, ascending or descending.  This is the class on which the 1-in-10
+ * uniqueness sample and the true distinct count disagree, which is where the
+ * adaptive bound depends on the encoder's own confirmation of its choice.
+ *
  * oracle, per encoder call, with N from the matching sizing function:
  *   pass 1  encode into N + slack bytes pre-filled with a pattern: returned
  *           length <= N (kind "bound"), no byte at offset >= N changed (kind
@@ -345,8 +360,256 @@ static size_t sampler_stride(size_t n) {
 
 typedef struct wcinfo {
     unsigned wc;
-    char note[96];
+    char note[160];
 } wcinfo;
+
+/* ----------------------------------------------- adaptive "large" sub-mode */
+/* tagged width classes (sqlite4 varint: 240 / 2287 / 67823, then one byte
+ * more per 8 bits); tw_bits = log2 of the largest power of two that fits in
+ * the class, so that lo + (q * odd mod 2^bits) is injective and stays inside */
+static const uint64_t tw_lo[10] = {0,          0,          241,        2288,
+                                   67824,      1ULL << 24, 1ULL << 32, 1ULL << 40,
+                                   1ULL << 48, 1ULL << 56};
+static const uint64_t tw_hi[10] = {0,
+                                   240,
+                                   2287,
+                                   67823,
+                                   (1ULL << 24) - 1,
+                                   (1ULL << 32) - 1,
+                                   (1ULL << 40) - 1,
+                                   (1ULL << 48) - 1,
+                                   (1ULL << 56) - 1,
+                                   UINT64_MAX};
+static const unsigned tw_bits[10] = {0, 7, 10, 16, 23, 31, 39, 47, 55, 63};
+
+typedef struct largeinfo {
+    int on;
+    unsigned tw;     /* tagged width class of the pool values */
+    unsigned k;      /* every k-th element ... */
+    unsigned phase;  /* ... at this phase ... */
+    int invert;      /* 0: ... is a palette value; 1: is a pool value */
+    unsigned order;  /* 0 unsorted, 1 ascending, 2 descending */
+    unsigned npal;
+    size_t pool;     /* distinct pool values laid out */
+    size_t distinct; /* true number of distinct values (by sorting) */
+    size_t sampleDistinct, sampleSize; /* what an every-stride-th sample sees */
+} largeinfo;
+
+static void take_large(vf_rd *r, vf_arr *a, wcinfo *wi, largeinfo *li) {
+    /* counts: the sampling threshold, the lengths at which n - n/10 distinct
+     * values cross 65536 (72818 / 72819) and n itself does (65536 / 65537),
+     * lengths that are not a multiple of the stride, and free choices */
+    static const uint32_t counts[14] = {10001, 100000, 72819, 80000, 73000,
+                                        131072, 140000, 90009, 10010, 20000,
+                                        40000, 65536, 65537, 72818};
+    uint8_t cb = vf_u8(r);
+    size_t n;
+    switch (cb & 15) {
+    case 14:
+        n = 72819 + (size_t)vf_u16(r);
+        break;
+    case 15:
+        n = 10001 + 2 * (size_t)vf_u16(r);
+        break;
+    default:
+        n = counts[cb & 15];
+        break;
+    }
+    unsigned ob = (cb >> 4) & 7;
+    unsigned order = ob < 6 ? 0 : ob - 5;
+    int palWide = cb >> 7;
+
+    size_t stride = sampler_stride(n);
+    uint8_t lb = vf_u8(r);
+    unsigned k = (unsigned)stride, phase = 0;
+    int invert = 0;
+    if ((lb & 3) == 3) {
+        uint8_t pb = vf_u8(r);
+        invert = pb >> 7;
+        if ((pb & 0xC0) != 0xC0) {
+            /* any k and phase; the remaining quarter is the mirror image of
+             * the default: the sample sees only pool values */
+            k = 1 + (lb >> 2) % 20;
+            phase = (pb & 31) % k;
+        }
+    }
+
+    static const uint8_t widths[16] = {9, 8, 7, 6, 9, 8, 7, 6,
+                                       9, 8, 7, 6, 5, 4, 3, 2};
+    uint8_t db = vf_u8(r);
+    unsigned tw = widths[(db >> 3) & 15];
+    int fromTop = db >> 7;
+    if (tw == 2 && fromTop) {
+        tw = 1; /* the one-byte class takes the place of "2 from the top" */
+        fromTop = 0;
+    }
+    /* pool positions */
+    size_t npalpos = 0;
+    for (size_t i = 0; i < n; i++) {
+        npalpos += ((i % k) == phase) != invert;
+    }
+    size_t npool = n - npalpos;
+    size_t D = npool;
+    switch (db & 7) {
+    case 4:
+        D = 1 + vf_u16(r) % 256;
+        break;
+    case 5:
+        D = 257 + vf_u16(r) % 65280;
+        break;
+    case 6:
+    case 7: {
+        uint64_t da = vf_u16(r);
+        D = npool > 65537 ? 65537 + (size_t)((da * (npool - 65536)) >> 16)
+                          : npool;
+        break;
+    }
+    default:
+        break;
+    }
+    if (D > npool) {
+        D = npool;
+    }
+    if (tw_bits[tw] < 30 && D > ((size_t)1 << tw_bits[tw])) {
+        D = (size_t)1 << tw_bits[tw]; /* capacity of the narrow classes */
+    }
+    uint8_t pbyte = vf_u8(r);
+    unsigned npal = 1 + (pbyte & 3);
+    uint8_t t = vf_u8(r);
+    uint64_t mul =
+        t ? ((((uint64_t)t << 1) | 1) * 0x9e3779b97f4a7c15ULL) | 1 : 1;
+    uint64_t pal[4] = {0, 0, 0, 0};
+    for (unsigned j = 0; j < npal; j++) {
+        pal[j] = vf_u64(r);
+        if (!palWide && pal[j] > tw_hi[tw]) {
+            pal[j] &= mask_bits(tw_bits[tw]); /* not wider than the pool */
+        }
+    }
+
+    arr_resize(a, n);
+    uint64_t m = mask_bits(tw_bits[tw]);
+    size_t qp = 0, qd = 0; /* running palette / pool ordinals */
+    for (size_t i = 0; i < n; i++) {
+        if ((((i % k) == phase) != invert) || D == 0) {
+            a->v[i] = pal[qp++ % npal];
+        } else {
+            uint64_t off = ((uint64_t)(qd++ % D) * mul) & m;
+            a->v[i] = fromTop ? tw_hi[tw] - off : tw_lo[tw] + off;
+        }
+    }
+    if (order) {
+        qsort(a->v, n, sizeof(*a->v), cmp_u64);
+        if (order == 2) {
+            for (size_t i = 0, j = n - 1; i < j; i++, j--) {
+                uint64_t x = a->v[i];
+                a->v[i] = a->v[j];
+                a->v[j] = x;
+            }
+        }
+    }
+    a->shape = VF_SH_SAMPLER_FOOL;
+    a->lenclass = 1;
+    snprintf(a->desc, sizeof(a->desc), "large n=%zu", n);
+
+    li->on = 1;
+    li->tw = tw;
+    li->k = k;
+    li->phase = phase;
+    li->invert = invert;
+    li->order = order;
+    li->npal = npal;
+    li->pool = D;
+    wi->wc = W_FOOL;
+    snprintf(wi->note, sizeof(wi->note),
+             "large n=%zu every %u-th(phase %u)=%s of %u, others=%s: %zu "
+             "distinct %u-byte values %s, mul=%u, %s",
+             n, k, phase, invert ? "pool" : "palette", npal,
+             invert ? "palette" : "pool", D, tw, fromTop ? "from top" : "from "
+             "bottom", (unsigned)t,
+             order == 0 ? "unsorted" : order == 1 ? "ascending" : "descending");
+}
+
+/* Harness-side view of a large adaptive input, for the class counters only:
+ * the true number of distinct values and the number an every-stride-th sample
+ * of count/10 elements sees (the rule documented in varintAdaptiveCountUnique;
+ * sorted input is counted exactly by the library). */
+static size_t count_distinct_sorted(uint64_t *v, size_t n) {
+    qsort(v, n, sizeof(*v), cmp_u64);
+    size_t d = n ? 1 : 0;
+    for (size_t i = 1; i < n; i++) {
+        d += v[i] != v[i - 1];
+    }
+    return d;
+}
+static void large_measure(const vf_arr *a, largeinfo *li) {
+    size_t n = a->n;
+    uint64_t *tmp = (uint64_t *)malloc((n ? n : 1) * sizeof(uint64_t));
+    if (!tmp) {
+        abort();
+    }
+    size_t ss = n / 10 < 100 ? 100 : n / 10;
+    size_t st = sampler_stride(n);
+    if (ss > n) {
+        ss = n;
+    }
+    for (size_t i = 0; i < ss; i++) {
+        tmp[i] = a->v[(i * st) % (n ? n : 1)];
+    }
+    li->sampleSize = ss;
+    li->sampleDistinct = count_distinct_sorted(tmp, ss);
+    memcpy(tmp, a->v, n * sizeof(uint64_t));
+    li->distinct = count_distinct_sorted(tmp, n);
+    free(tmp);
+}
+/* class counters of a large adaptive case; `sel` is the encoding the library
+ * reported, r / N the returned and the advertised length */
+static void large_classes(const vf_arr *a, const largeinfo *li, unsigned sel,
+                          size_t r, size_t N) {
+    static const char *const seln[8] = {"DELTA",  "FOR",    "PFOR", "DICT",
+                                        "BITMAP", "TAGGED", "GROUP", "?"};
+    char b[96];
+    size_t n = a->n;
+    vf_class("adaptive.large");
+    unsigned idx = li->distinct <= 256 ? 1 : li->distinct <= 65536 ? 2 : 3;
+    snprintf(b, sizeof(b), "adaptive.large.idx%u", idx);
+    vf_class(b);
+    snprintf(b, sizeof(b), "adaptive.large.tag%u", li->tw);
+    vf_class(b);
+    vf_class(n <= 65536   ? "adaptive.large.n<=65536"
+             : n <= 72818 ? "adaptive.large.n65537-72818"
+                          : "adaptive.large.n>72818");
+    vf_class(li->order == 0   ? "adaptive.large.unsorted"
+             : li->order == 1 ? "adaptive.large.ascending"
+                              : "adaptive.large.descending");
+    if (li->invert) {
+        vf_class("adaptive.large.poolOnKth");
+    }
+    if (li->k == sampler_stride(n) && li->phase == 0) {
+        vf_class("adaptive.large.k=stride.phase0");
+    } else {
+        snprintf(b, sizeof(b), "adaptive.large.k%u", li->k);
+        vf_class(b);
+        vf_class(li->phase ? "adaptive.large.phase>0" : "adaptive.large.phase0");
+    }
+    /* the selector's dictionary rule is "fewer than 15 % unique" */
+    int trueFew = li->distinct * 100 < n * 15;
+    int sampFew = li->sampleDistinct * 100 < li->sampleSize * 15;
+    const char *vis = "agree";
+    if (li->order == 0) {
+        vis = sampFew && !trueFew ? "under" : !sampFew && trueFew ? "over" : "agree";
+    }
+    snprintf(b, sizeof(b), "adaptive.large.%s", vis);
+    vf_class(b);
+    snprintf(b, sizeof(b), "adaptive.large.%s.idx%u", vis, idx);
+    vf_class(b);
+    snprintf(b, sizeof(b), "adaptive.large.%s.idx%u.tag%u", vis, idx, li->tw);
+    vf_class(b);
+    snprintf(b, sizeof(b), "adaptive.large.%s.sel.%s", vis, seln[sel & 7]);
+    vf_class(b);
+    if (r != SIZE_MAX && r * 10 >= N * 9) {
+        vf_class("adaptive.large.result>=90%");
+    }
+}
 
 /* lay a worst-case class over the generic array */
 static void take_worst(vf_rd *r, unsigned wc, int fam, unsigned variant,
@@ -615,6 +878,7 @@ typedef struct outcome {
     size_t N;
     size_t r;      /* SIZE_MAX after a violation */
     int worstData; /* data-dependent worst-case membership found here */
+    unsigned sel;  /* adaptive: the encoding the library reported */
 } outcome;
 
 static void note_result(vf_report *rep, const char *site, outcome *o) {
@@ -660,7 +924,7 @@ static unsigned family_flags(int fam, unsigned variant) {
 static outcome run_family(vf_report *rep, int fam, unsigned variant,
                           const vf_arr *a, unsigned fbyte, unsigned ebyte,
                           unsigned aux) {
-    outcome o = {0, SIZE_MAX, 0};
+    outcome o = {0, SIZE_MAX, 0, 7};
     ectx c;
     memset(&c, 0, sizeof(c));
     c.v = a->v;
@@ -761,6 +1025,7 @@ static outcome run_family(vf_report *rep, int fam, unsigned variant,
         c.sel = VARINT_ADAPTIVE_TAGGED;
         o.r = check_bound(rep, site, o.N, 0, e_adaptive, &c,
                           "varintAdaptiveEncode vs varintAdaptiveMaxSize");
+        o.sel = (unsigned)c.sel & 7;
         cls2("adaptive.sel", sel[(unsigned)c.sel & 7]);
         vf_desc(rep, " sel=%s", sel[(unsigned)c.sel & 7]);
         if (n > 10000) {
@@ -1005,6 +1270,23 @@ static size_t length_cap(int fam, unsigned sz, int *bigOK) {
     }
 }
 
+/* the adaptive "large" sub-mode's fixed share of the sampler-fooling class:
+ * about 1/15 of it on the quick tier (the extra mass of the byte 0xff
+ * included), about 1/7 on the thorough tier */
+static int large_share(unsigned sz) {
+    /* development aid: VF_C03_NOLARGE=1 switches the sub-mode off (to measure
+     * its share of the run time); such cases decode as before */
+    static int off = -1;
+    if (off < 0) {
+        const char *e = getenv("VF_C03_NOLARGE");
+        off = e && *e == '1';
+    }
+    if (off) {
+        return 0;
+    }
+    return vf_tier() ? (sz & 0xE0) == 0xE0 : (sz & 0xF0) == 0xF0;
+}
+
 static int only_filter_skip(int fam) {
     /* development aid: VF_C03_ONLY=pfor,adaptive restricts a campaign to the
      * listed families (other cases are skipped, never re-interpreted, so a
@@ -1051,13 +1333,21 @@ void vf_run(vf_rd *r, vf_report *rep) {
     size_t maxlen = length_cap(fam, sz, &bigOK);
     unsigned flags = family_flags(fam, variant);
     vf_arr a;
-    vf_take_array(r, &a, maxlen, flags);
     wcinfo wi;
     wi.wc = W_NONE;
     wi.note[0] = 0;
-    if (wc != W_NONE) {
-        take_worst(r, wc, fam, variant, maxlen, bigOK, &a, &wi);
-        apply_domain(&a, flags);
+    largeinfo li;
+    memset(&li, 0, sizeof(li));
+    if (fam == F_ADAPTIVE && wc == W_FOOL && large_share(sz)) {
+        memset(&a, 0, sizeof(a));
+        take_large(r, &a, &wi, &li);
+        large_measure(&a, &li);
+    } else {
+        vf_take_array(r, &a, maxlen, flags);
+        if (wc != W_NONE) {
+            take_worst(r, wc, fam, variant, maxlen, bigOK, &a, &wi);
+            apply_domain(&a, flags);
+        }
     }
     if (fam == F_DELTA && (variant & 1) == 0) {
         apply_domain(&a, VF_ARR_SDELTA); /* 2^62 itself -> 2^62-1 */
@@ -1096,7 +1386,14 @@ void vf_run(vf_rd *r, vf_report *rep) {
     cls2("wc", wc_name[wi.wc]);
     vf_arr_classes(&a, "arr");
 
+    if (li.on) {
+        vf_desc(rep, " distinct=%zu sampleDistinct=%zu/%zu", li.distinct,
+                li.sampleDistinct, li.sampleSize);
+    }
     outcome o = run_family(rep, fam, variant, &a, fbyte, ebyte, sz);
+    if (li.on) {
+        large_classes(&a, &li, o.sel, o.r, o.N);
+    }
 
     if (!rep->violated && o.r != SIZE_MAX) {
         int nontrivial = wi.wc != W_NONE || o.worstData ||
@@ -1226,6 +1523,36 @@ void vf_sweep(vf_report *rep) {
         vf_desc(rep, "sweep family=adaptive n=%zu wide cluster above 2^56, %u "
                      "far outliers", n, k);
         run_family(rep, F_ADAPTIVE, 0, &a, 0, 0, 0);
+        vf_arr_free(&a);
+        evals++;
+    }
+    /* representatives of the adaptive "large" sub-mode (same decoder as the
+     * generated cases): every 10th element = 7, all others distinct values of
+     * one tagged width class, so the sample sees one value and the dictionary
+     * needs 3-byte indices: 7-, 8- and 9-byte values at 80000 elements (a
+     * dictionary would not fit the bound), 6-byte values at 73000 (it fits) */
+    static const uint8_t large[4][7] = {{3, 0, 0x10, 0, 1, 2, 7},
+                                        {3, 0, 0x08, 0, 1, 2, 7},
+                                        {3, 0, 0x00, 0, 1, 2, 7},
+                                        {4, 0, 0x18, 0, 1, 2, 7}};
+    for (unsigned j = 0; j < 4 && !rep->violated; j++) {
+        if (only_filter_skip(F_ADAPTIVE)) {
+            break;
+        }
+        vf_rd rd = {large[j], sizeof(large[j]), 0};
+        vf_arr a;
+        memset(&a, 0, sizeof(a));
+        wcinfo wi;
+        largeinfo li;
+        memset(&li, 0, sizeof(li));
+        take_large(&rd, &a, &wi, &li);
+        large_measure(&a, &li);
+        rep->desclen = 0;
+        rep->desc[0] = 0;
+        vf_desc(rep, "sweep family=adaptive %s distinct=%zu sampleDistinct=%zu/%zu",
+                wi.note, li.distinct, li.sampleDistinct, li.sampleSize);
+        outcome o = run_family(rep, F_ADAPTIVE, 0, &a, 0, 0, 0);
+        large_classes(&a, &li, o.sel, o.r, o.N);
         vf_arr_free(&a);
         evals++;
     }
